@@ -200,6 +200,25 @@ type mesh struct {
 	idx     map[netip.Addr]int
 }
 
+// outsider returns the first identity at or after cands[start] that is not a
+// router of the mesh (with spread addresses the mesh draws from every routable
+// group, so an "attacker" or "unknown" identity could otherwise be a mesh node,
+// whose signatures are of course genuine).
+func (ms *mesh) outsider(cands []*ids.Identity, start int) *ids.Identity {
+	for k := 0; k < len(cands); k++ {
+		id := cands[(start+k)%len(cands)]
+		if _, in := ms.idx[id.Addr.IP]; !in {
+			return id
+		}
+	}
+	for _, id := range ids.Routable() {
+		if _, in := ms.idx[id.Addr.IP]; !in {
+			return id
+		}
+	}
+	panic("no identity outside the mesh")
+}
+
 // buildMesh creates the routers and virtual links of a topology.
 func buildMesh(c *core.Case, t meshTopo, o meshOpts) *mesh {
 	ms := &mesh{vn: vnet.New(), topo: t, idx: map[netip.Addr]int{}}
